@@ -214,4 +214,46 @@ MUTANTS = [
 	} else {
 		hn.prev.next = hn.next
 	}""", note="removing a middle node of a list of >=4 drops its successor too"),
+    # ---- C15
+    M("c15-no-copy", ["C15"], DISP, "			hn.Handle(conn, line.Copy())", "			hn.Handle(conn, line)"),
+    M("c15-copy-aliases-tags", ["C15"], L, """	if l.Tags != nil {
+		nl.Tags = make(map[string]string)
+		for k, v := range l.Tags {
+			nl.Tags[k] = v
+		}
+	}
+	return &nl""", """	return &nl"""),
+    M("c15-copy-aliases-args", ["C15"], L, """	nl.Args = make([]string, len(l.Args))
+	copy(nl.Args, l.Args)""", """	nl.Args = l.Args[:]"""),
+    M("c15-one-copy-per-set", ["C15"], DISP, """	for _, hn := range hs.getHandlers(ev) {
+		wg.Add(1)
+		go func(hn *hNode) {
+			hn.Handle(conn, line.Copy())""", """	shared := line.Copy()
+	for _, hn := range hs.getHandlers(ev) {
+		wg.Add(1)
+		go func(hn *hNode) {
+			hn.Handle(conn, shared)"""),
+    M("c15-copy-skips-args-when-many", ["C15"], L, """	nl.Args = make([]string, len(l.Args))
+	copy(nl.Args, l.Args)""", """	if len(l.Args) < 8 {
+		nl.Args = make([]string, len(l.Args))
+		copy(nl.Args, l.Args)
+	}"""),
+    M("c15-bg-shares-with-fg-original", ["C15"], DISP, "	go conn.bgHandlers.dispatch(conn, line)", "	go conn.bgHandlers.dispatch(conn, line)", expect="control"),
+    # ---- C16
+    M("c16-no-recover", ["C16"], DISP, "	defer conn.cfg.Recover(conn, line)\n", "", note="process dies on the first handler panic"),
+    M("c16-logpanic-no-recover", ["C16"], DISP, "	if err := recover(); err != nil {\n		_, f, l, _ := runtime.Caller(2)", "	if err := error(nil); err != nil {\n		_, f, l, _ := runtime.Caller(2)"),
+    M("c16-bg-sync", ["C16"], DISP, "	go conn.bgHandlers.dispatch(conn, line)", "	conn.bgHandlers.dispatch(conn, line)"),
+    M("c16-recover-only-fg", ["C16"], DISP, """func (hn *hNode) Handle(conn *Conn, line *Line) {
+	defer conn.cfg.Recover(conn, line)""", """func (hn *hNode) Handle(conn *Conn, line *Line) {
+	if hn.set == conn.bgHandlers && len(line.Args) > 1 {
+		defer func() { recover() }()
+	} else {
+		defer conn.cfg.Recover(conn, line)
+	}"""),
+    M("c16-wgdone-deferred-control", ["C16"], DISP, """			hn.Handle(conn, line.Copy())
+			wg.Done()""", """			defer wg.Done()
+			hn.Handle(conn, line.Copy())""", expect="control"),
+    M("c16-recover-wrong-line", ["C16"], DISP, """func (hn *hNode) Handle(conn *Conn, line *Line) {
+	defer conn.cfg.Recover(conn, line)""", """func (hn *hNode) Handle(conn *Conn, line *Line) {
+	defer conn.cfg.Recover(conn, &Line{Cmd: line.Cmd})"""),
 ]
